@@ -67,7 +67,7 @@ def gen_route(rng, L):
     elif fam in ('bytes=', 'BytesIO', 'bitarray='):
         r['pre'] = rng.choice([0, 0, 3, 8, 13])
         r['post'] = rng.choice([0, 0, 5, 8, 11])
-        r['container'] = rng.choice(['bytes', 'bytearray', 'memoryview']) if fam == 'bytes=' else None
+        r['container'] = rng.choice(['bytes', 'bytearray', 'memoryview', 'memoryview-cast']) if fam == 'bytes=' else None
         r['give_length'] = rng.random() < 0.8
         r['give_offset'] = r['pre'] > 0 or rng.random() < 0.5
         if not r['give_length']:
@@ -172,7 +172,12 @@ def build(cls, bits, r, files):
             intended = bits if r['give_length'] else bits + post
         by = to_bytes(full)
         if fam == 'bytes=':
-            cont = {'bytes': bytes, 'bytearray': bytearray, 'memoryview': memoryview}[r['container']](by)
+            if r['container'] == 'memoryview-cast':
+                # a view of the same bytes with 2- or 4-byte items (still a memoryview of bytes)
+                cont = memoryview(by)
+                cont = cont.cast('I') if len(by) % 4 == 0 and len(by) else cont.cast('H') if len(by) % 2 == 0 and len(by) else cont
+            else:
+                cont = {'bytes': bytes, 'bytearray': bytearray, 'memoryview': memoryview}[r['container']](by)
             return cls(bytes=cont, **kw), intended
         if not kw:
             return cls(io.BytesIO(by)), intended
